@@ -1,5 +1,6 @@
 (* Incremental.v -- src/incremental_document.rs (IncrementalDocument: create_from,
-   opt_clone_object_to_new_document, get_or_create_resources, add_xobject), Document::new_from_prev
+   opt_clone_object_to_new_document, get_or_create_resources -- as repaired by e57537a: a page that only inherits
+   Resources gets a copy of the inherited dictionary --, add_xobject), Document::new_from_prev
    (src/document.rs) and IncrementalDocument::save_internal (src/writer.rs, as repaired by commit
    bb85a17: offsets are counted from the file header, not from byte 0 of the unsliced buffer).
    The pieces shared with the plain save (indirect objects with the byte counter, cross-reference
@@ -101,9 +102,45 @@ Definition place_set (m : objmap) (p : place) (o : obj) : objmap :=
   | PKey id k => match lookup m id with Some (ODict d) => insert m id (ODict (dict_set d k o)) | _ => m end
   end.
 
+(* ---- the objects of the update over those of the previous documents (current_object:
+   new_document.objects.get(&id).or_else(|| prev_documents.objects.get(&id)) ): [lookup] in this list finds the
+   object of the new document first; its length is new_document.objects.len() + prev_documents.objects.len() ---- *)
+Definition cur_objects (s : incdoc) : objmap := new_objects s ++ prev_objects s.
+
+(* inherited_resources (after the repair e57537a; the same walk as Document::inherited_resources of src/creator.rs, but
+   every id is resolved by current_object and references are followed by current_dereference = Document::dereference
+   over current_object, same limit):
+     for _ in 0..new.len() + prev.len() { parent_id = node.get("Parent").as_reference().ok()?;
+        node = current_dereference(current_object(parent_id)?)?.as_dict().ok()?;
+        if let Ok(r) = node.get("Resources") { return current_dereference(r)?.as_dict().ok().cloned() } }  None *)
+Fixpoint inherited_loop (fuel : nat) (m : objmap) (node : dict) : option dict :=
+  match fuel with
+  | O => None
+  | S k =>
+    match dict_get node K_Parent with
+    | Some (ORef i g) =>
+      match get_dictionary m (i, g) with
+      | None => None
+      | Some pn =>
+        match dict_get pn K_Resources with
+        | Some r => match dereference m r with Some (_, ODict rd) => Some rd | _ => None end
+        | None => inherited_loop k m pn
+        end
+      end
+    | _ => None
+    end
+  end.
+Definition inherited_resources (s : incdoc) (node : dict) : option dict :=
+  inherited_loop (length (cur_objects s)) (cur_objects s) node.
+
+(* the dictionary a page without a Resources entry gets: inherited.unwrap_or_default() *)
+Definition initial_resources (s : incdoc) (node : dict) : dict :=
+  match inherited_resources s node with Some rd => rd | None => [] end.
+
 (* get_or_create_resources: the state afterwards (changes made before an error are kept) and the
-   place of the returned &mut Object (None = Err) *)
-Definition get_or_create_resources (s : incdoc) (page : oid) : incdoc * option place :=
+   place of the returned &mut Object (None = Err).  [init] = what a page without a Resources entry gets, computed
+   from the page dictionary in the state after the page was copied. *)
+Definition get_or_create_resources_with (init : incdoc -> dict -> dict) (s : incdoc) (page : oid) : incdoc * option place :=
   match opt_clone s page with
   | None => (s, None)
   | Some s1 =>
@@ -129,7 +166,7 @@ Definition get_or_create_resources (s : incdoc) (page : oid) : incdoc * option p
           match lookup (new_objects s1) t with
           | Some (ODict td) =>
             let s2 := if dict_has td K_Resources then s1
-                      else set_new_objects s1 (insert (new_objects s1) t (ODict (dict_set td K_Resources (ODict [])))) in
+                      else set_new_objects s1 (insert (new_objects s1) t (ODict (dict_set td K_Resources (ODict (init s1 pd))))) in
             (s2, Some (PKey t K_Resources))
           | _ => (s1, None)
           end
@@ -139,6 +176,11 @@ Definition get_or_create_resources (s : incdoc) (page : oid) : incdoc * option p
     | _ => (s1, None)
     end
   end.
+
+(* the code as it is now: a page that only inherits Resources gets a COPY of the nearest inherited dictionary *)
+Definition get_or_create_resources := get_or_create_resources_with initial_resources.
+(* the code before the repair e57537a: Dictionary::new(), which hides the inherited resources (refutation theorem only) *)
+Definition get_or_create_resources_v0 := get_or_create_resources_with (fun _ _ => []).
 
 (* add_xobject: Ok(()) also when the resources are not a dictionary (the `if let Ok` swallows it);
    Err only from the part inside.  Result: state, true = Ok *)
